@@ -17,6 +17,7 @@ import WuffsVerif.Model.ProbeVM
       derived: `,`-separated r.<name> | w.<name> (or `-`); args: `/`-separated <name>:<argspec> (or `-`)
   tmplinit                                                -> initializer event sequence
   cseq <gif|png|still|nie> <cs> <dic|dfc|df|tmm|rf> <resumed01> <cls> <cs'>   -> rejected | allowed <cs'> | unexpected <cls> <cs'>
+  cssrc <gif|png|nie|still|bmp> <codec> <func|*>          -> the call_sequence statements of that function (or the function list)
   vm <idx> <selfnull01> <src> <dst> <proghex>             -> <status> <magic> <active> src=… dst=… pc=… p=… scratch=…
       the probe's bytecode interpreter `thing.vm?` (Model/ProbeVM.lean); src/dst: <mode>,<memhex>,<ri>,<wi>,<closed01>
       with mode 0 = NULL pointer, 1 = buffer over memhex, 2 = buffer without data.ptr
@@ -297,6 +298,8 @@ def c08Step (st : DState) (l : List String) : DState × String :=
   | ["tmplinit"] => (st, initShape)
   | ["cseq", codec, cs, meth, resumed, cls, cs'] =>
     (st, (cseqOp codec cs meth resumed cls cs').getD "bad-op")
+  | ["cssrc", cls, _codec, fn] =>
+    (st, if fn == "*" then CallSeq.srcFuncs cls else CallSeq.srcShape cls fn)
   | ["vm", idx, sn, src, dst, prog] => (vmOp st idx sn src dst prog).getD (st, "bad-op")
   | ["io", role, mem, len, ri, wi, closed, hasptr, instrs] =>
     (st, (ioOp role mem len ri wi closed hasptr instrs).getD "bad-op")
